@@ -217,9 +217,13 @@ where
         for bytes in [2u128, 3, 4] {
             for k in 1..bytes {
                 let base = (((k << 64) + bytes - 1) / bytes) as usize;
-                idxs.extend([base, base + 1, base + 2]);
+                idxs.extend([base.wrapping_sub(2), base.wrapping_sub(1), base, base + 1, base + 2]);
             }
+            // ... and the last indices whose byte offset still fits (offset + pixel size overflows)
+            let last = (usize::MAX as u128 / bytes) as usize;
+            idxs.extend([last - 1, last, last.wrapping_add(1)]);
         }
+        idxs.extend([usize::MAX / 2 - 1, usize::MAX / 2, usize::MAX / 8 * 8 - 1, usize::MAX / 8 - 1]);
         for i in idxs {
             for bg in 0..4 {
                 cases.push((len, i, bg));
